@@ -109,7 +109,7 @@ theorem unpackN_flatten (f : Val → Bytes → Except Err (Val × Bytes)) (p : V
 
 /-! ### associative containers -/
 
-theorem insertBy_append (lt : Val → Val → Bool) (e : Val) (l : List Val)
+theorem insertBy_append {α : Type} (lt : α → α → Bool) (e : α) (l : List α)
     (h : ∀ x ∈ l, lt x e = true) : insertBy lt e l = l ++ [e] := by
   induction l with
   | nil => rfl
@@ -118,13 +118,13 @@ theorem insertBy_append (lt : Val → Val → Bool) (e : Val) (l : List Val)
     simp only [insertBy, hx, if_true, List.cons_append]
     rw [ih (fun y hy => h y (List.mem_cons_of_mem _ hy))]
 
-theorem sortedBy_cons (lt : Val → Val → Bool) (x : Val) (xs : List Val) :
+theorem sortedBy_cons {α : Type} (lt : α → α → Bool) (x : α) (xs : List α) :
     sortedBy lt (x :: xs) = true ↔ (∀ y ∈ xs, lt x y = true) ∧ sortedBy lt xs = true := by
   simp [sortedBy, List.all_eq_true]
 
 /-- Inserting a sorted sequence, in order, behind entries that all precede it appends it. -/
-theorem insertAll_sorted (lt : Val → Val → Bool) (es : List Val) :
-    ∀ (pre : List Val), sortedBy lt es = true → (∀ x ∈ pre, ∀ y ∈ es, lt x y = true) →
+theorem insertAll_sorted {α : Type} (lt : α → α → Bool) (es : List α) :
+    ∀ (pre : List α), sortedBy lt es = true → (∀ x ∈ pre, ∀ y ∈ es, lt x y = true) →
       insertAll lt pre es = pre ++ es := by
   induction es with
   | nil => intro pre _ _; simp [insertAll]
@@ -141,7 +141,7 @@ theorem insertAll_sorted (lt : Val → Val → Bool) (es : List Val) :
     simp only [insertAll] at this
     rw [this]; simp
 
-theorem insertAll_nil_sorted (lt : Val → Val → Bool) (es : List Val) (h : sortedBy lt es = true) :
+theorem insertAll_nil_sorted {α : Type} (lt : α → α → Bool) (es : List α) (h : sortedBy lt es = true) :
     insertAll lt [] es = es := by
   have := insertAll_sorted lt es [] h (by intro x hx; cases hx)
   simpa using this
